@@ -88,8 +88,14 @@ def judge(real_text, shadow, rnd, export_text=None, nprobes=12):
     """compare what the library emitted with the reference rendering of the shadow"""
     refs = S.free_refs(shadow)
     prefix = S.ref_prefix(refs)
-    rf = prefix + S.ref(shadow)
-    rt = prefix + real_text
+    if prefix:
+        # a fragment with free group references is judged behind a synthetic declaration of those
+        # groups; both sides are wrapped alike so that the prefix binds to the whole fragment
+        rf = prefix + '(?:' + S.ref(shadow) + ')'
+        rt = prefix + '(?:' + real_text + ')'
+    else:
+        rf = S.ref(shadow)
+        rt = real_text
     caps = S.captures(shadow)
     if caps is not None:
         named = [c for c in caps if c]
@@ -107,6 +113,11 @@ def judge(real_text, shadow, rnd, export_text=None, nprobes=12):
     pr = C.parse(rt)
     if pr.error:
         return Verdict('viol', 'uncompilable:' + pr.error, real=real_text, ref=rf)
+    if prefix:
+        bare = C.parse(prefix + real_text)
+        if bare.error:
+            # wrapping must not repair an unbalanced fragment
+            return Verdict('viol', 'uncompilable:' + bare.error, real=real_text, ref=rf)
     cr, err = C.compiles(rt)
     if cr is None:
         return Verdict('viol', 'uncompilable:' + err, real=real_text, ref=rf)
@@ -148,7 +159,7 @@ def check_export(prefix, real_text, export_text, pr):
         return Verdict('viol', 'export-differs', detail='get_pattern() returned %r' % (export_text,), real=real_text)
     if not export_text.isprintable():
         return Verdict('viol', 'not-printable', detail='get_pattern() = %r' % export_text, real=real_text)
-    pe = C.parse(prefix + export_text)
+    pe = C.parse(prefix + '(?:' + export_text + ')' if prefix else export_text)
     if pe.error:
         return Verdict('viol', 'export-differs', detail='get_pattern() %r does not compile: %s' % (export_text, pe.error),
                        real=real_text)
